@@ -367,3 +367,36 @@ pub fn key_object_es256_jwks<'a, T: QueryServerTransaction<'a>>(
 }
 
 // ---- idm-reset end
+// ---- idm-lock begin
+impl SoftLock {
+    /// `Debug` rendering of the wrapped soft-lock (state, counters, reset/unlock times).
+    pub fn debug_state(&self) -> String {
+        format!("{:?}", self.0)
+    }
+}
+
+/// `Debug` rendering of the server's in-memory soft-lock for one credential id, if one exists.
+pub fn idm_softlock_debug(
+    auth: &crate::idm::server::IdmServerAuthTransaction<'_>,
+    cred_uuid: Uuid,
+) -> Option<String> {
+    let rd = auth.softlocks.read();
+    rd.get(&cred_uuid)
+        .map(|m| match m.try_lock() {
+            Ok(g) => format!("{:?}", *g),
+            Err(_) => "busy".to_string(),
+        })
+}
+
+/// The id of a stored credential (the key of its soft-lock).
+pub fn credential_uuid(c: &crate::credential::Credential) -> Uuid {
+    c.uuid
+}
+
+/// The soft-lock policy kanidm derives for a stored credential.
+pub fn credential_softlock_policy(
+    c: &crate::credential::Credential,
+) -> crate::credential::softlock::CredSoftLockPolicy {
+    c.softlock_policy()
+}
+// ---- idm-lock end
